@@ -16,6 +16,7 @@ Property theorems only (helpers: `Gotlcp.Lemmas.Parsers`, `Gotlcp.Lemmas.Parsers
 import Gotlcp.Lemmas.Parsers
 import Gotlcp.Lemmas.ParsersLoop
 import Gotlcp.Lemmas.ParsersLoopD
+import Gotlcp.Lemmas.CertIdx
 import Gotlcp.Model.ParsersFacts
 import Gotlcp.Tie.UnmarshalTlcp
 import Gotlcp.Tie.UnmarshalDtlcp
@@ -150,6 +151,98 @@ theorem C09_no_panic_header_tlcp (raw : Bytes) (hr : Facts.tlcp.recordHeaderLen 
 theorem C09_no_panic_header_dtlcp (haveVers : Bool) (vers : Nat) (buf : Bytes) (firstRecord : Bool) :
     splitD Facts.dtlcp.recordHeaderLen Facts.dtlcp.maxCiphertext haveVers vers buf firstRecord ≠ .panic :=
   splitD_no_panic _ _ (by decide) haveVers vers buf firstRecord
+
+/-! ### (a) no panic: the peer's certificate list
+
+`processCertsFromClient`, `verifyServerCertificate` and `verifySessionCertificates` index the
+parsed certificate list by hand (`certs[0]`, `certs[1]`, `certs[start:]`) under guards on
+`len(certs)`, on the negotiated suite and on the client-auth policy.  The extractor transliterates
+the index structure of each function (facts `hsCertIdx*`: every index / slice bound with the
+conditions and early returns around it); `Model.CertIdx.mayPanic p n f0 f1` says that SOME path
+through it reads the list out of range when it has `n` entries (`f0` = `isECDHE`; conditions the
+model does not interpret — policy, verification results — are taken both ways).
+`Lemmas.CertIdx.mayPanic_clamp` proves that lengths beyond the largest constant of the program
+all behave alike, so the finite evaluation below is the statement for EVERY length. -/
+
+section Certs
+open Gotlcp.Model.CertIdx Gotlcp.Lemmas.CertIdx
+
+set_option maxRecDepth 100000 in
+/-- the finite checks, on the index programs as they are in the working tree (both stacks) -/
+theorem C09_facts_certs :
+    check Facts.tlcp.hsCertIdxServer = true ∧ check Facts.tlcp.hsCertIdxClient = true ∧
+    check Facts.tlcp.hsCertIdxSession = true ∧
+    check Facts.dtlcp.hsCertIdxServer = true ∧ check Facts.dtlcp.hsCertIdxClient = true ∧
+    check Facts.dtlcp.hsCertIdxSession = true := by
+  decide
+
+/-- the index program of a function, by stack -/
+def certProg (dtls : Bool) (which : Nat) : List Tok :=
+  match dtls, which with
+  | false, 0 => Facts.tlcp.hsCertIdxServer
+  | false, 1 => Facts.tlcp.hsCertIdxClient
+  | false, _ => Facts.tlcp.hsCertIdxSession
+  | true, 0 => Facts.dtlcp.hsCertIdxServer
+  | true, 1 => Facts.dtlcp.hsCertIdxClient
+  | true, _ => Facts.dtlcp.hsCertIdxSession
+
+theorem certProg_check (dtls : Bool) (which : Nat) : check (certProg dtls which) = true := by
+  have f := C09_facts_certs
+  cases dtls
+  · match which with
+    | 0 => exact f.1
+    | 1 => exact f.2.1
+    | _ + 2 => exact f.2.2.1
+  · match which with
+    | 0 => exact f.2.2.2.1
+    | 1 => exact f.2.2.2.2.1
+    | _ + 2 => exact f.2.2.2.2.2
+
+/-- `processCertsFromClient` (server): whatever number `n` of certificates the client's Certificate
+message (or the resumed session) carries, whatever suite was negotiated, whatever the client-auth
+policy and whatever the results of parsing and chain verification, no path indexes the list out
+of range — both stacks -/
+theorem C09_no_panic_certs_server (dtls : Bool) (n : Nat) (isECDHE f1 : Bool) :
+    ∃ p, progOf (certProg dtls 0) = some p ∧ mayPanic p n isECDHE f1 = false := by
+  obtain ⟨p, hp, h⟩ := safe_of_check (certProg_check dtls 0)
+  exact ⟨p, hp, h n isECDHE f1⟩
+
+/-- `verifyServerCertificate` (client): the same for the server's Certificate message, with or
+without `InsecureSkipVerify` -/
+theorem C09_no_panic_certs_client (dtls : Bool) (n : Nat) (f0 f1 : Bool) :
+    ∃ p, progOf (certProg dtls 1) = some p ∧ mayPanic p n f0 f1 = false := by
+  obtain ⟨p, hp, h⟩ := safe_of_check (certProg_check dtls 1)
+  exact ⟨p, hp, h n f0 f1⟩
+
+/-- `verifySessionCertificates` (client, resumption): the certificate list recorded in a cached
+session, of any length -/
+theorem C09_no_panic_certs_session (dtls : Bool) (n : Nat) (f0 f1 : Bool) :
+    ∃ p, progOf (certProg dtls 2) = some p ∧ mayPanic p n f0 f1 = false := by
+  obtain ⟨p, hp, h⟩ := safe_of_check (certProg_check dtls 2)
+  exact ⟨p, hp, h n f0 f1⟩
+
+-- non-vacuity: the model does find out-of-range reads.  `certs[1]` behind `len(certs) == 0`-only
+-- guards (the two guards of processCertsFromClient merged into one that no longer asks for two
+-- certificates under ECDHE): a list of exactly one certificate under an ECDHE suite panics …
+def mergedGuard : List Tok :=
+  [(8, 0, 0), (24, 0, 0), (20, 1, 0), (25, 0, 0), (21, 0, 0), (22, 0, 0), (1, 0, 0), (0, 0, 0), (0, 0, 0),   -- if len < 1 && (isECDHE || ?) { return }
+   (8, 0, 0), (23, 0, 0), (20, 1, 0),                                                                      -- if len > 0 {
+   (2, 0, 0), (8, 0, 0), (21, 0, 0), (2, 1, 0), (0, 0, 0), (0, 0, 0), (0, 0, 0), (0, 0, 0),               --   certs[0]; if isECDHE { certs[1] } }
+   (0, 0, 0)]
+example : check mergedGuard = false := by decide
+example : (progOf mergedGuard).map (fun p => (mayPanic p 1 true false, mayPanic p 1 false false, mayPanic p 2 true false)) =
+    some (true, false, false) := by decide
+-- … an index by something the extractor does not interpret, a variable bound and a loop that
+-- assigns are never called safe
+example : check [(11, 0, 0), (0, 0, 0)] = false := by decide
+example : check [(6, 0, 2), (5, 0, 0), (0, 0, 0)] = false := by decide
+example : check [(8, 0, 0), (20, 2, 0), (1, 0, 0), (0, 0, 0), (0, 0, 0), (6, 0, 2), (5, 0, 0), (0, 0, 0)] = true := by decide
+example : check [(6, 0, 0), (9, 0, 0), (6, 0, 5), (0, 0, 0), (3, 0, 0), (0, 0, 0)] = false := by decide
+-- the programs in the tree are not trivial: they do read `certs[1]` and `certs[2:]`
+example : (Facts.tlcp.hsCertIdxServer.contains (2, 1, 0) && Facts.tlcp.hsCertIdxClient.contains (4, 2, 0) &&
+    Facts.dtlcp.hsCertIdxServer.contains (2, 1, 0) && Facts.dtlcp.hsCertIdxClient.contains (4, 2, 0)) = true := by decide
+
+end Certs
 
 /-! ### the defects on the unchanged tree (negations on concrete witnesses) and non-vacuity -/
 
